@@ -334,11 +334,10 @@ func renderedMetadataWinsRule(c *Ctx) {
 			if len(args) != 1 || recv == nil {
 				continue
 			}
-			merge, _ := asCall(args[0])
-			if merge == nil || calleeID(merge.Common()) != "k8s.io/apimachinery/pkg/labels.Merge" {
+			margs, isMerge := p.mergeOperands(fn, args[0])
+			if !isMerge {
 				continue
 			}
-			margs := merge.Common().Args
 			getter := "Get" + strings.TrimPrefix(name, "Set")
 			rootOf := func(v ssa.Value) (ssa.Value, bool) {
 				g, _ := asCall(v)
@@ -358,7 +357,7 @@ func renderedMetadataWinsRule(c *Ctx) {
 			case p.key(r1) == p.key(recv) && p.key(r0) != p.key(recv):
 				o.OK()
 			case p.key(r0) == p.key(recv) && p.key(r1) != p.key(recv):
-				o.Fail("labels.Merge lets its second operand win: here that is the object found on the cluster, so a %s rendered from a source never follows later changes of that source", strings.ToLower(strings.TrimSuffix(strings.TrimPrefix(name, "Set"), "s")))
+				o.Fail("the merge lets its second operand win: here that is the object found on the cluster, so a %s rendered from a source never follows later changes of that source", strings.ToLower(strings.TrimSuffix(strings.TrimPrefix(name, "Set"), "s")))
 			default:
 				o.Unknown("cannot tell which operand of labels.Merge belongs to the rendered object")
 			}
@@ -367,6 +366,76 @@ func renderedMetadataWinsRule(c *Ctx) {
 	if n == 0 {
 		c.AnchorLost("labels.Merge into SetLabels/SetAnnotations in " + pkgObjTemplate)
 	}
+}
+
+// mergeOperands reads `labels.Merge(a, b)` and its spelled-out forms — a fresh map filled by
+// `maps.Copy(m, a); maps.Copy(m, b)` or by two range loops — as (a, b): b's entries win.
+func (p *Program) mergeOperands(fn *ssa.Function, v ssa.Value) ([]ssa.Value, bool) {
+	if merge, _ := asCall(v); merge != nil && calleeID(merge.Common()) == "k8s.io/apimachinery/pkg/labels.Merge" {
+		return merge.Common().Args, true
+	}
+	var mk *ssa.MakeMap
+	for _, pv := range p.possibleValues(v) {
+		m, ok := stripConv(pv).(*ssa.MakeMap)
+		if !ok || (mk != nil && mk != m) {
+			return nil, false
+		}
+		mk = m
+	}
+	if mk == nil {
+		return nil, false
+	}
+	type ev struct {
+		at  ssa.Instruction
+		src ssa.Value
+	}
+	var evs []ev
+	isM := func(x ssa.Value) bool {
+		for _, pv := range p.possibleValues(x) {
+			if stripConv(pv) == ssa.Value(mk) {
+				return true
+			}
+		}
+		return false
+	}
+	for _, b := range fn.Blocks {
+		for _, in := range b.Instrs {
+			switch x := in.(type) {
+			case *ssa.Call:
+				if calleeID(x.Common()) == "maps.Copy" && len(x.Common().Args) == 2 && isM(x.Common().Args[0]) {
+					evs = append(evs, ev{x, x.Common().Args[1]})
+				}
+			case *ssa.MapUpdate:
+				if !isM(x.Map) {
+					continue
+				}
+				// key taken from a range over another map
+				ex, ok := stripConv(x.Key).(*ssa.Extract)
+				if !ok {
+					return nil, false
+				}
+				nx, ok := ex.Tuple.(*ssa.Next)
+				if !ok {
+					return nil, false
+				}
+				rg, ok := nx.Iter.(*ssa.Range)
+				if !ok {
+					return nil, false
+				}
+				evs = append(evs, ev{x, rg.X})
+			}
+		}
+	}
+	if len(evs) != 2 {
+		return nil, false
+	}
+	switch {
+	case canPrecede(evs[0].at, evs[1].at) && !canPrecede(evs[1].at, evs[0].at):
+		return []ssa.Value{evs[0].src, evs[1].src}, true
+	case canPrecede(evs[1].at, evs[0].at) && !canPrecede(evs[0].at, evs[1].at):
+		return []ssa.Value{evs[1].src, evs[0].src}, true
+	}
+	return nil, false
 }
 
 // ---------------------------------------------------------------------------------------------
